@@ -766,7 +766,10 @@ class FieldValueMultiple(FieldValueBase):
         cls._parse_basic_params(attr_to_component_name_dict, attr_fields_dict_basic, components, params)
         cls._parse_extensions(attr_to_component_name_dict, extension, components, params)
 
-        return cls(**params), len(parsable)
+        try:
+            return cls(**params), len(parsable)
+        except TypeError as e:
+            six.raise_from(InvalidValue(_to_printable(parsable), cls), e)
 
     def compose(self):
         composer = ComposerText()
